@@ -52,4 +52,8 @@ def replay(c, beh, sc, mode, label, nontrivial, H=1, T=3, name="beh"):
     summ = [r for r in res if r.get("kind") == "summary"][0]
     if summ.get("tool_errors", 0) > len(beh) // 10:
         raise ToolError("too many tool errors: %s" % summ)
+    inc = sum(1 for r in res if r.get("kind") == "result" and r.get("inconclusive"))
+    c.cov["inconclusive_real_clock_behaviours_%s_%s" % (name, mode)] = inc
+    if inc * 3 > max(len(beh), 1):
+        raise ToolError("%d of %d real-clock behaviours fell behind their schedule (loaded machine): nothing to say" % (inc, len(beh)))
     vlib.replay_results(c, beh, res, keyfn(c.pid), label, nontrivial=nontrivial)
